@@ -32,9 +32,24 @@ CHECKS = {
  "C20": ("other", "Partial: no theorem quantifies over interpreters; each installed interpreter (2.7, 3.6-3.13) runs one probe on identical operations and is compared with the reference interpreter, which the other checks tie to the Lean model; Lean: sortObj_order_independent (sorted JSON does not depend on dict iteration order).", "cross-interpreter correspondence to the one Lean model", "6/C20"),
 }
 
+# what was added after the first revision (kept apart so that the original level texts stay readable)
+EXTRA = {
+ "C01": " Search beyond single constructions: special families (corners, full spelling, rounding ties), repeated construction, scores read from as_json(), warm / cold-start concurrency.",
+ "C02": " Search beyond single constructions: special families incl. 261 frozen rounding ties found with the Lean spec, repeated construction, warm / cold-start concurrency.",
+ "C03": " Search beyond single constructions: corner and cap families, repeated construction, scores read from as_json(), warm / cold-start concurrency.",
+ "C13": " Lean (C13Order): parseText_order / parseText_eq_dedup - the result is exactly the first-occurrence de-duplication of the built candidates (a function of the text alone; order part of C19/C20 after repo fix 9402f24). Tie also on long texts (to 256 KiB) with vectors at power-of-two offsets and optional-only fragments.",
+ "C16": " The question order is learned behaviourally, prompts are auxiliary only; runs of thousands of illegal answers.",
+ "C17": " Lean (C17Messages): the message / prompt / stdout models are erasures of the verified core (parseMsg_v*, constructMsg_*_iff, mainMsg_eq, dialogue_vector, stdout_total). The report oracle compares VALUES in the API's order (layout-tolerant); wording and layout are auxiliary correspondence.",
+ "C18": " Every history also exercises a related partner object; expected values come from the Lean model, not from the same (possibly polluted) process.",
+ "C19": " Also: cold-start concurrency in fresh processes, repeated construction, process-global state snapshot before import vs after use, extraction result order under hash seeds.",
+ "C20": " Also: argparse spellings, near-miss RH score texts, extraction result order.",
+}
+
+
 def main():
     checks = []
     for pid, (cat, text, tech, ref) in sorted(CHECKS.items()):
+        text = text + EXTRA.get(pid, "")
         checks.append({
             "property_id": pid,
             "quick_cmd": "./check %s --tier quick" % pid,
